@@ -130,7 +130,12 @@ def apply_op(ds, op, aux=None, args=None):
     if m == "sel":
         lons = args.get("lons", list(op["lons"]))
         lats = args.get("lats", list(op["lats"]))
+        if op.get("dset_lonlat"):
+            # station positions handed over by the caller ("could help improve speed")
+            kw["dset_lons"] = args["dset_lons"] if "dset_lons" in args else np.array(ds["lon"].values)
+            kw["dset_lats"] = args["dset_lats"] if "dset_lats" in args else np.array(ds["lat"].values)
         return ds.spec.sel(lons, lats, **kw)
+
     raise ValueError(f"unknown op {m}")
 
 
@@ -166,7 +171,17 @@ def gen_op(rng, recipe, pool="all"):
         method = rng.choice(["idw", "nearest", "bbox"])
         lons = [round(float(slon[rng.randrange(len(slon))]) + rng.choice([0.0, 0.3, -0.2]), 3) for _ in range(n)]
         lats = [round(float(slat[rng.randrange(len(slat))]) + rng.choice([0.0, 0.25, -0.1]), 3) for _ in range(n)]
-        return {"m": "sel", "via": "ds", "lons": lons, "lats": lats, "kw": {"method": method, "tolerance": rng.choice([2.0, 10.0])}}
+        op = {"m": "sel", "via": "ds", "lons": lons, "lats": lats, "kw": {"method": method, "tolerance": rng.choice([2.0, 10.0])}}
+        if method == "nearest" and rng.random() < 0.5:
+            op["kw"].update(rng.choice([{"unique": True}, {"exact": True}, {"missing": "ignore", "tolerance": 0.05}, {"tolerance": 0.05}]))
+            if op["kw"].get("exact"):
+                op["lons"] = [round(float(slon[rng.randrange(len(slon))]), 3) for _ in range(n)]
+                op["lats"] = [round(float(slat[i]), 3) for i in [list(np.round(slon, 3)).index(x) for x in op["lons"]]]
+        if method is not None and rng.random() < 0.1:
+            op["kw"]["method"] = None       # only exact matches
+        if rng.random() < 0.2:
+            op["dset_lonlat"] = True
+        return op
     if g == "stat":
         names = [n for n in SIMPLE_STATS if has_dir or n not in NEEDS_DIR]
         return {"m": rng.choice(names), "via": via}
@@ -268,7 +283,8 @@ def gen_op(rng, recipe, pool="all"):
         if m == "ptm3":
             kw["parts"] = n
         else:
-            kw["swells"] = n
+            kw["swells"] = n if rng.random() < 0.85 else None     # None: as many swells as there are
+
             if rng.random() < 0.3:
                 kw["agefac"] = 1.5
         return {"m": m, "via": via, "kw": kw, "scalar_winds": m != "ptm3" and rng.random() < 0.1}
